@@ -2026,6 +2026,16 @@ func runC12(run *Run, replay string) Spec {
 	for _, sc := range c12Corpus() {
 		exec(sc)
 	}
+	// the filter decision itself (c12f.go)
+	if run.Prop == "C12" {
+		nf := 4000
+		if run.Tier == "thorough" {
+			nf = 200000
+		}
+		for k := 0; k < nf && run.NViolations() < 5; k++ {
+			c12FilterCheck(run, subRng(run.Seed, 2_000_000_000+k))
+		}
+	}
 	n := 3000
 	if run.Tier == "thorough" {
 		n = 60000
